@@ -2,7 +2,7 @@
 # usage: seed_eval.sh <ID> <n> <check ids...>
 # Confirms a seeded change (tests pass with it, demo fails with it and passes without), then runs checks on /repo with it applied.
 ID=$1; N=$2; shift 2
-W=/tmp/mut/$ID; M=$W/mutation$N
+W=${MUTROOT:-/tmp/mut}/$ID; M=$W/mutation$N
 [ -f $M/patch.diff ] || { echo "no $M/patch.diff"; exit 2; }
 cd $W && git checkout -q -- src tests 2>/dev/null; rm -f tests/seed_demo.rs
 demo=$(ls $M/demo*.rs 2>/dev/null | head -1)
